@@ -4,6 +4,8 @@ import Fdo.Cbor.Footprint
 import Fdo.Cbor.TypedSuffix
 import Fdo.Cbor.TypedWF
 import Fdo.Cbor.WellFormedLimits
+import Fdo.Cbor.TypedLimit
+import Fdo.Cbor.TypedProofs
 import Fdo.Gen.Cbor
 /-
 C12 — CBOR decoding of arbitrary bytes is total, bounded and exact.
@@ -187,6 +189,29 @@ theorem typed_unmarshal_no_trailing (ok : CertOracle) (s : Schema) (b : Bytes) (
   split at h
   · rename_i v' heq; simp at h; subst h; exact heq
   · simp at h
+
+/-- **Declared lengths at or above the limit are rejected by every decode target that checks it** — every
+target except the four that read their head through `Decoder.unwrap` (`Schema.limitChecked`): whatever
+follows the head, and even if all the declared bytes or items are really there. -/
+theorem typed_over_limit_rejected (ok : CertOracle) (f d : Nat) (s : Schema) (b : Bytes) (mt ai arg : Nat) (r : Bytes)
+    (hd : decHead b = some (mt, ai, arg, r)) (hmt : 2 ≤ mt ∧ mt ≤ 5) (harg : arg ≥ maxLen)
+    (hs : s.limitChecked = true) : decodeS ok f d s b = none :=
+  decodeS_over_limit ok f d s b mt ai arg r hd hmt harg hs
+
+/-- The excluded targets, stated rather than hidden: `ByteWrap[[]byte]` (and likewise `Bstr[T]`,
+`ByteWrap[T]`, the X.509 wrappers) accepts a byte string of any declared length whose bytes are all
+present — the limit of `MaxArrayDecodeLength` "for a string or byte slice" is not applied on this path.
+Run on the implementation: a 200 000-byte string decodes into `ByteWrap[[]byte]` and is refused by
+`[]byte` and `RawBytes`. Within the property's quantifier (inputs up to 64 KiB) such a string can only be
+*declared*, never delivered, and is refused for lack of bytes after reading at most the input
+(`typed_decode_consumes_prefix`, allocation oracle), so this is recorded as an observation, not a finding. -/
+theorem unwrap_targets_do_not_check_limit (ok : CertOracle) (f d n : Nat) (r : Bytes) (hn : n < 18446744073709551616)
+    (hl : n ≤ r.length) :
+    decodeS ok (f + 1) d .wrapBytes (encHead 2 n ++ r) = some (.bytes (r.take n), r.drop n) := by
+  obtain ⟨ai, hd, hai⟩ := decHead_encHead28 2 n r (by omega) hn
+  simp only [decodeS, unwrapBytes, hd]
+  have : ¬ (ai ≥ 28) := by omega
+  simp [this]; omega
 
 /-! ### what is consumed is one well-formed item
 
